@@ -371,7 +371,7 @@ Theorem recv_lock_serialises :
       let s := trun M (tinit c0 o na nb) sch in
       map snd (rev (t_log s)) =
       firstn (length (t_log s)) (results (run_calls M Blocking (linit c0) o (repeat None (na + nb)))).
-Proof. exact (@lock_serialises). Qed.
+Proof. exact (@lock_serialises_prog). Qed.
 Print Assumptions recv_lock_serialises.
 
 (* At most one thread is inside the receive (parked in the transport) at any time, and it is the lock holder. *)
@@ -382,7 +382,7 @@ Theorem recv_lock_mutex :
       let s := trun M (tinit c0 o na nb) sch in
       forall (i : bool) (n : nat), tget s i = TParked n ->
         t_lock s = Some i /\ (forall m, tget s (negb i) <> TParked m).
-Proof. exact (@lock_mutex). Qed.
+Proof. exact (@lock_mutex_prog). Qed.
 Print Assumptions recv_lock_mutex.
 
 (* Hence recv_sequence for two threads and every schedule: the returned calls deliver the events of the stream in order,
@@ -397,6 +397,52 @@ Theorem recv_sequence_two_threads :
       r = expected (spec (stream_of o)) j.
 Proof. exact (@threads_recv_sequence). Qed.
 Print Assumptions recv_sequence_two_threads.
+
+(* the same two theorems with progress required only on the states the loop reaches, obtained from the (relativised)
+   consumer interface: this covers the buffer-filling machines *)
+Theorem recv_lock_serialises_rel :
+  forall (P C : Type) (M : machine P C) (spec : bytes -> list (nres P)) (G : bytes -> Prop)
+         (R : C -> bytes -> nat -> Prop) (D : C -> bytes -> Prop),
+    consumer_ok_rel M spec G R D ->
+    forall c0 : C, R c0 [] 0 ->
+    forall (o : oracle) (na nb : nat) (sch : list bool), G (stream_of o) ->
+      let s := trun M (tinit c0 o na nb) sch in
+      map snd (rev (t_log s)) =
+      firstn (length (t_log s)) (results (run_calls M Blocking (linit c0) o (repeat None (na + nb)))).
+Proof. exact (@lock_serialises_rel). Qed.
+Print Assumptions recv_lock_serialises_rel.
+
+Theorem recv_lock_mutex_rel :
+  forall (P C : Type) (M : machine P C) (spec : bytes -> list (nres P)) (G : bytes -> Prop)
+         (R : C -> bytes -> nat -> Prop) (D : C -> bytes -> Prop),
+    consumer_ok_rel M spec G R D ->
+    forall c0 : C, R c0 [] 0 ->
+    forall (o : oracle) (na nb : nat) (sch : list bool), G (stream_of o) ->
+      let s := trun M (tinit c0 o na nb) sch in
+      forall (i : bool) (n : nat), tget s i = TParked n ->
+        t_lock s = Some i /\ (forall m, tget s (negb i) <> TParked m).
+Proof. exact (@lock_mutex_rel). Qed.
+Print Assumptions recv_lock_mutex_rel.
+
+Theorem recv_sequence_two_threads_buffered_read_until :
+  forall (P : Type) (sep : bytes) (limit : nat) (keep_end : bool) (dec : decoder P) (sizehint : nat),
+    sep <> [] -> length sep + 1 <= limit ->
+  forall (o : oracle) (na nb : nat) (sch : list bool) (j : nat) (r : rres P),
+    safe sep (limit - 1 - length sep) (stream_of o) ->
+    nth_error (delivered (map snd (rev (t_log (trun (buf_machine (bru_framer sep limit keep_end dec) sizehint)
+                                               (tinit (bcinit (bru_framer sep limit keep_end dec)) o na nb) sch))))) j = Some r ->
+    r = expected (fst (spec_events sep keep_end dec (stream_of o))) j.
+Proof. exact (@bru_threads_recv_sequence). Qed.
+Print Assumptions recv_sequence_two_threads_buffered_read_until.
+
+Theorem recv_sequence_two_threads_buffered_fixed_size :
+  forall (P : Type) (size : nat) (dec : decoder P) (sizehint : nat), 1 <= size ->
+  forall (o : oracle) (na nb : nat) (sch : list bool) (j : nat) (r : rres P),
+    nth_error (delivered (map snd (rev (t_log (trun (buf_machine (bfx_framer size dec) sizehint)
+                                               (tinit (bcinit (bfx_framer size dec)) o na nb) sch))))) j = Some r ->
+    r = expected (fst (fx_events size dec (stream_of o))) j.
+Proof. exact (@bfx_threads_recv_sequence). Qed.
+Print Assumptions recv_sequence_two_threads_buffered_fixed_size.
 
 Theorem recv_sequence_two_threads_read_until :
   forall (P : Type) (sep : bytes) (limit : nat) (keep_end : bool) (dec : decoder P) (bufsize : nat),
